@@ -33,9 +33,15 @@ class SMGen(Gen):
             _cexit(f"Multiple-crossing blocks are not supported by SMGen.")
 
         for c in block.constraints:
-            if (isinstance(c, AtMostKInARow) or isinstance(c, AtLeastKInARow) or isinstance(c, ExactlyK)
-                or isinstance(c, Exclude) or isinstance(c, Pin)):
+            # Only the crossing itself, derivations, and a minimum trial count are implemented
+            if not isinstance(c, (Cross, Consistency, Derivation, MinimumTrials, ContinuousConstraint)):
                 _cexit(f"{type(c).__name__} constraints are not supported by SMGen.")
+
+        # One (possibly scaled) pass through the crossing is all that is generated
+        if len(block.crossings) == 1:
+            one_pass = block.preamble_size() + block.crossing_size() * block.crossing_weight()
+            if block.trials_per_sample() > one_pass:
+                _cexit(f"Repeated crossings are not supported by SMGen.")
 
         # For now, implement a minimum-trials contraint by weighting the levels of
         # one non-derived factor
@@ -83,17 +89,23 @@ class SMGen(Gen):
 
                     _levels.append([l.name,pred,arg_names,l._weight])
             else:
-                # For now, implement weighting for a non-derived factor by duplicating levels
+                # For now, implement weighting for a non-derived factor by duplicating levels;
+                # scaling lengthens the sequence only if the factor is crossed
+                scale = scale_one if any(f is cf for cf in crossing) else 1
                 for l in levels:
-                    for i in range(scale_one * l._weight):
+                    for i in range(scale * l._weight):
                         _levels.append(l.name)
-                scale_one = 1
+                if scale > 1:
+                    scale_one = 1
 
             if d_type==None:
                 primary.append([name,_levels])
             else:
                 derived.append([name,_levels,d_type])
 
+
+        if scale_one > 1:
+            _cexit("MinimumTrials constraints are not supported by SMGen when no non-derived factor is crossed.")
 
         for fp in primary:
             p_dc[fp[0]]=_Factor(fp[0],fp[1])
